@@ -73,7 +73,7 @@ theorem P0_step (lookup : List Nat → Option Nat) (hl : LookupOk lookup) (kind 
     have hns' : NoSurr cs := hns.suffix (List.suffix_cons _ _)
     by_cases h92 : c = 92 ∧ ¬ kind.isRaw = true
     · obtain ⟨rfl, hraw⟩ := h92
-      rw [if_pos ⟨rfl, hraw⟩, if_neg (by simp)] at h
+      rw [if_pos ⟨rfl, hraw⟩] at h
       by_cases hbr : cs.head? = some 123 ∨ cs.head? = some 125
       · simp only [hbr, if_true] at h
         intro fuel hf
@@ -222,7 +222,7 @@ theorem all_levels (lookup : List Nat → Option Nat) (hl : LookupOk lookup) (ki
     · intro seen pieces content cs off ps r o h; simp [Spec.parts] at h
   | succ n ih =>
     obtain ⟨hA, hF, hB, h0⟩ := ih
-    exact ⟨PA_step lookup kind n hA hF hB, PF_step lookup kind n hA, PB_step lookup hl kind hk n hF hB,
+    exact ⟨PA_step lookup hl kind hk n hA hF hB, PF_step lookup kind n hA, PB_step lookup hl kind hk n hF hB,
       P0_step lookup hl kind hk n hF h0⟩
 
 theorem fstring_agree (lookup : List Nat → Option Nat) (hl : LookupOk lookup) (kind : Kind)
